@@ -43,6 +43,23 @@ int main(int argc, char** argv)
     for (const char* body : {"\"x", "\"", "1,\"x\"\"", "\"x\ny"}) for (int hdr = 0; hdr < 2; ++hdr) { ++total;
         try { json j = csv::decode_csv<json>(std::string("a,b\n") + body, csv::csv_options{}.assume_header(hdr != 0)); if (!bad) first = "an unterminated quoted field is accepted: " + j.to_string(); ++bad; }
         catch (const jsoncons::json_exception&) {} catch (const std::exception& e) { if (!bad) first = std::string("foreign exception for an unterminated quoted field: ") + e.what(); ++bad; } }
+    // sub-fields with ignore_empty_values (F51): the events of every mapping are balanced and every value in an object has its name - judged from the event stream of the cursor,
+    // and decode_csv delivers a value (ASan decides about the column filter of m_columns)
+    for (const char* text : {"a\n;\n", "a,b\n1,;\n", "a,b\n1;2,;\n", "a,b\n;,1\n", "a\n1;", "a\n1;\"\"\n", "a\n\"\";\n", "a,b,c\n1;6,;,5\n6,", "a\n1;\r\n2\n"}) for (int mk = 0; mk < 3; ++mk) for (int iev = 0; iev < 2; ++iev) { ++total;
+        auto o = csv::csv_options{}.assume_header(true).ignore_empty_values(iev != 0).subfield_delimiter(';').mapping_kind(mk == 0 ? csv::csv_mapping_kind::n_rows : mk == 1 ? csv::csv_mapping_kind::n_objects : csv::csv_mapping_kind::m_columns);
+        std::string doc(text);
+        try { std::vector<char> st; bool ok = true, pending_key = false; std::string why;
+              csv::csv_string_cursor c(doc, o);
+              for (; !c.done() && ok; c.next()) { auto t = c.current().event_type(); bool in_obj = !st.empty() && st.back() == 'o';
+                  if (t == staj_event_type::key) { if (!in_obj || pending_key) { ok = false; why = "misplaced key"; } pending_key = true; continue; }
+                  if (in_obj && t != staj_event_type::end_object) { if (!pending_key) { ok = false; why = "a value in an object without a name"; } pending_key = false; }
+                  if (t == staj_event_type::begin_array) st.push_back('a'); else if (t == staj_event_type::begin_object) st.push_back('o');
+                  else if (t == staj_event_type::end_array) { if (st.empty() || st.back() != 'a') { ok = false; why = "end_array without begin_array"; } else st.pop_back(); }
+                  else if (t == staj_event_type::end_object) { if (st.empty() || st.back() != 'o' || pending_key) { ok = false; why = "end_object out of place"; } else st.pop_back(); } }
+              if (ok && !st.empty()) { ok = false; why = "the input is exhausted with " + std::to_string(st.size()) + " containers open"; }
+              if (!ok) { if (!bad) first = "csv text with sub-fields (mapping " + std::to_string(mk) + ", ignore_empty_values " + std::to_string(iev) + "): " + why; ++bad; continue; }
+              json j = csv::decode_csv<json>(doc, o); (void)j; }
+        catch (const std::exception& e) { if (!bad) first = std::string("csv text with sub-fields (mapping ") + std::to_string(mk) + ", ignore_empty_values " + std::to_string(iev) + ") is refused: " + e.what(); ++bad; } }
     if (bad) VX_REPRO(bad << " of " << total << " csv round trips differ, first: " << first);
     VX_NOREPRO("all " << total << " csv round trips are the identity");
 }
